@@ -252,3 +252,184 @@ Section Main.
   Qed.
 
 End Main.
+
+(** * Generic facts *)
+Lemma Forall_Pslot_all : forall (Q : node -> Prop), (forall n, Q n) -> forall l, Forall (Pslot Q) l.
+Proof. intros Q H l. induction l as [|[c|] r IH]; constructor; cbn; auto. Qed.
+Lemma Pbody_all : forall (Q : node -> Prop), (forall n, Q n) -> forall b, Pbody Q b.
+Proof.
+  intros Q H [c|]; cbn; [|exact I]. split; [apply H|]. destruct c; cbn; try exact I.
+  now apply Forall_Pslot_all.
+Qed.
+Lemma Pargs_all : forall (Q : node -> Prop), (forall n, Q n) -> forall a, Pargs Q a.
+Proof. intros Q H [[sp l]|]; cbn; [now apply Forall_Pslot_all | exact I]. Qed.
+
+Lemma NoDup_app_intro : forall {A} (l1 l2 : list A),
+  NoDup l1 -> NoDup l2 -> (forall x, In x l1 -> ~ In x l2) -> NoDup (l1 ++ l2).
+Proof.
+  intros A l1 l2 H1 H2 Hd. induction H1 as [|a l Ha Hl IH]; cbn; [exact H2|].
+  constructor.
+  - rewrite in_app_iff. intros [Hin|Hin]; [exact (Ha Hin)|]. exact (Hd a (or_introl eq_refl) Hin).
+  - apply IH. intros x Hx. apply Hd. now right.
+Qed.
+
+Lemma FOP_app : forall {A} (Rel : A -> A -> Prop) (l1 l2 : list A),
+  ForallOrdPairs Rel l1 -> ForallOrdPairs Rel l2 ->
+  (forall a b, In a l1 -> In b l2 -> Rel a b) -> ForallOrdPairs Rel (l1 ++ l2).
+Proof.
+  intros A Rel l1 l2 H1 H2 Hc. induction H1 as [|a l Ha Hl IH]; cbn; [exact H2|].
+  constructor.
+  - apply Forall_app. split; [exact Ha|]. apply Forall_forall. intros b Hb. apply Hc; [now left | exact Hb].
+  - apply IH. intros x y Hx Hy. apply Hc; [now right | exact Hy].
+Qed.
+
+Lemma FOP_split : forall {A} (Rel : A -> A -> Prop) (l1 l2 : list A) (e : A),
+  ForallOrdPairs Rel (l1 ++ e :: l2) -> Forall (Rel e) l2.
+Proof.
+  intros A Rel l1. induction l1 as [|a l IH]; cbn; intros l2 e H; inversion H; subst; auto.
+Qed.
+
+Lemma perm_filter : forall {A} (f : A -> bool) (l l' : list A),
+  Permutation l l' -> Permutation (filter f l) (filter f l').
+Proof.
+  intros A f l l' H. induction H; cbn.
+  - constructor.
+  - destruct (f x); [now constructor | assumption].
+  - destruct (f x), (f y); try apply Permutation_refl; now constructor.
+  - eapply Permutation_trans; eassumption.
+Qed.
+
+Lemma app_cons_assoc : forall {A} (p : list A) x d, (p ++ [x]) ++ d = p ++ x :: d.
+Proof. intros. now rewrite <- app_assoc. Qed.
+
+(** * Where the objects of a tree sit *)
+Section Occurrences.
+
+  Definition Pprefix (n : node) : Prop :=
+    forall p o, In o (occurrences p n) -> exists d, fst o = p ++ d.
+
+  Lemma slot_occ_shape_H : forall l, Forall (Pslot Pprefix) l -> forall p mk i o,
+    In o (slot_occ occurrences p mk i l) -> exists j d, i <= j /\ fst o = p ++ mk j :: d.
+  Proof.
+    induction 1 as [|s r Hs Hr IH]; intros p mk i o Hin; [contradiction|].
+    destruct s as [c|].
+    - rewrite slot_occ_some in Hin. apply in_app_or in Hin. destruct Hin as [Hin|Hin].
+      + destruct (Hs _ _ Hin) as [d Hd]. exists i, d. split; [lia|]. now rewrite Hd, app_cons_assoc.
+      + destruct (IH _ _ _ _ Hin) as (j & d & Hj & Hd). exists j, d. split; [lia | exact Hd].
+    - rewrite slot_occ_none in Hin.
+      destruct (IH _ _ _ _ Hin) as (j & d & Hj & Hd). exists j, d. split; [lia | exact Hd].
+  Qed.
+
+  Lemma body_occ_shape_H : forall b, Pbody Pprefix b -> forall p o,
+    In o (body_occ occurrences p b) -> exists j d, fst o = p ++ SBody j :: d.
+  Proof.
+    intros [c|] Hb p o Hin; [|contradiction]. destruct c; try contradiction.
+    destruct Hb as [_ Hl]. destruct (slot_occ_shape_H _ Hl _ _ _ _ Hin) as (j & d & _ & Hd).
+    now exists j, d.
+  Qed.
+
+  Lemma args_occ_shape_H : forall a, Pargs Pprefix a -> forall p o,
+    In o (args_occ occurrences p a) -> exists d, fst o = p ++ SArgs :: d.
+  Proof.
+    intros [[sp l]|] Ha p o Hin; [|contradiction]. cbn [args_occ] in Hin. destruct Hin as [Ho|Hin].
+    - subst o. now exists [].
+    - destruct (slot_occ_shape_H _ Ha _ _ _ _ Hin) as (j & d & _ & Hd).
+      exists (SArg j :: d). now rewrite Hd, app_cons_assoc.
+  Qed.
+
+  Lemma occ_prefix : forall n, Pprefix n.
+  Proof.
+    induction n using node_ind'; intros q o Hin; cbn [occurrences] in Hin;
+      (destruct Hin as [Ho|Hin]; [subst o; exists []; now rewrite app_nil_r|]);
+      try contradiction.
+    - destruct (body_occ_shape_H _ H _ _ Hin) as (j & tl & Hd). now exists (SBody j :: tl).
+    - destruct (args_occ_shape_H _ H _ _ Hin) as (tl & Hd). now exists (SArgs :: tl).
+    - apply in_app_or in Hin. destruct Hin as [Hin|Hin].
+      + destruct (args_occ_shape_H _ H _ _ Hin) as (tl & Hd). now exists (SArgs :: tl).
+      + destruct (body_occ_shape_H _ H0 _ _ Hin) as (j & tl & Hd). now exists (SBody j :: tl).
+    - destruct (args_occ_shape_H _ H _ _ Hin) as (tl & Hd). now exists (SArgs :: tl).
+    - destruct (body_occ_shape_H _ H _ _ Hin) as (j & tl & Hd). now exists (SBody j :: tl).
+    - destruct (slot_occ_shape_H _ H _ _ _ _ Hin) as (j & tl & _ & Hd). now exists (SItem j :: tl).
+  Qed.
+
+  Lemma slot_occ_shape : forall l p mk i o,
+    In o (slot_occ occurrences p mk i l) -> exists j d, i <= j /\ fst o = p ++ mk j :: d.
+  Proof. intros l. apply slot_occ_shape_H, Forall_Pslot_all, occ_prefix. Qed.
+  Lemma body_occ_shape : forall b p o,
+    In o (body_occ occurrences p b) -> exists j d, fst o = p ++ SBody j :: d.
+  Proof. intros b. apply body_occ_shape_H, Pbody_all, occ_prefix. Qed.
+  Lemma args_occ_shape : forall a p o,
+    In o (args_occ occurrences p a) -> exists d, fst o = p ++ SArgs :: d.
+  Proof. intros a. apply args_occ_shape_H, Pargs_all, occ_prefix. Qed.
+
+  (** ** no two objects share a path *)
+  Definition Pnodup (n : node) : Prop := forall p, NoDup (map fst (occurrences p n)).
+
+  Lemma path_neq_ext : forall (p : path) x d, p <> p ++ x :: d.
+  Proof.
+    intros p x d H. rewrite <- (app_nil_r p) in H at 1. apply app_inv_head in H. discriminate.
+  Qed.
+
+  Lemma slot_occ_nodup : forall l, Forall (Pslot Pnodup) l -> forall p mk i,
+    (forall a b, mk a = mk b -> a = b) -> NoDup (map fst (slot_occ occurrences p mk i l)).
+  Proof.
+    induction 1 as [|s r Hs Hr IH]; intros p mk i Hinj; [constructor|].
+    destruct s as [c|].
+    - rewrite slot_occ_some, map_app. apply NoDup_app_intro; [apply Hs | now apply IH |].
+      intros q H1 H2. apply in_map_iff in H1. destruct H1 as (o1 & E1 & I1).
+      apply in_map_iff in H2. destruct H2 as (o2 & E2 & I2).
+      destruct (occ_prefix _ _ _ I1) as [d1 D1].
+      destruct (slot_occ_shape _ _ _ _ _ I2) as (j & d2 & Hj & D2).
+      rewrite E1, app_cons_assoc in D1. rewrite E2, D1 in D2. apply app_inv_head in D2.
+      injection D2 as D2 _. apply Hinj in D2. lia.
+    - rewrite slot_occ_none. now apply IH.
+  Qed.
+
+  Lemma body_occ_nodup : forall b, Pbody Pnodup b -> forall p,
+    NoDup (map fst (body_occ occurrences p b)).
+  Proof.
+    intros [c|] Hb p; [|constructor]. destruct c; try constructor.
+    destruct Hb as [_ Hl]. apply slot_occ_nodup; [exact Hl | congruence].
+  Qed.
+
+  Lemma args_occ_nodup : forall a, Pargs Pnodup a -> forall p,
+    NoDup (map fst (args_occ occurrences p a)).
+  Proof.
+    intros [[sp l]|] Ha p; [|constructor]. cbn [args_occ map fst]. constructor.
+    - intros Hin. apply in_map_iff in Hin. destruct Hin as (o & E & I1).
+      destruct (slot_occ_shape _ _ _ _ _ I1) as (j & d & _ & D). rewrite E in D.
+      exact (path_neq_ext _ _ _ D).
+    - apply slot_occ_nodup; [exact Ha | congruence].
+  Qed.
+
+  Lemma occ_nodup : forall n, Pnodup n.
+  Proof.
+    induction n using node_ind'; intros q; cbn [occurrences map fst]; constructor;
+      try (intros []); try constructor.
+    - intros Hin. apply in_map_iff in Hin. destruct Hin as (o & E & I1).
+      destruct (body_occ_shape _ _ _ I1) as (j & tl & TL). rewrite E in TL. exact (path_neq_ext _ _ _ TL).
+    - now apply body_occ_nodup.
+    - intros Hin. apply in_map_iff in Hin. destruct Hin as (o & E & I1).
+      destruct (args_occ_shape _ _ _ I1) as (tl & TL). rewrite E in TL. exact (path_neq_ext _ _ _ TL).
+    - now apply args_occ_nodup.
+    - intros Hin. apply in_map_iff in Hin. destruct Hin as (o & E & I1).
+      apply in_app_or in I1. destruct I1 as [I1|I1].
+      + destruct (args_occ_shape _ _ _ I1) as (tl & TL). rewrite E in TL. exact (path_neq_ext _ _ _ TL).
+      + destruct (body_occ_shape _ _ _ I1) as (j & tl & TL). rewrite E in TL. exact (path_neq_ext _ _ _ TL).
+    - rewrite map_app. apply NoDup_app_intro; [now apply args_occ_nodup | now apply body_occ_nodup |].
+      intros x H1 H2. apply in_map_iff in H1. destruct H1 as (o1 & E1 & I1).
+      apply in_map_iff in H2. destruct H2 as (o2 & E2 & I2).
+      destruct (args_occ_shape _ _ _ I1) as (d1 & D1). destruct (body_occ_shape _ _ _ I2) as (j & d2 & D2).
+      rewrite E1 in D1. rewrite E2, D1 in D2. apply app_inv_head in D2. discriminate.
+    - intros Hin. apply in_map_iff in Hin. destruct Hin as (o & E & I1).
+      destruct (args_occ_shape _ _ _ I1) as (tl & TL). rewrite E in TL. exact (path_neq_ext _ _ _ TL).
+    - now apply args_occ_nodup.
+    - intros Hin. apply in_map_iff in Hin. destruct Hin as (o & E & I1).
+      destruct (body_occ_shape _ _ _ I1) as (j & tl & TL). rewrite E in TL. exact (path_neq_ext _ _ _ TL).
+    - now apply body_occ_nodup.
+    - intros Hin. apply in_map_iff in Hin. destruct Hin as (o & E & I1).
+      destruct (slot_occ_shape _ _ _ _ _ I1) as (j & tl & _ & TL). rewrite E in TL. exact (path_neq_ext _ _ _ TL).
+    - apply slot_occ_nodup; [exact H | congruence].
+  Qed.
+
+End Occurrences.
